@@ -23,7 +23,9 @@ namespace chk {
   static std::map<void*, size_t> live;
   static long alloc_count = 0, fault_at = 0, nullfree = 0, faults_thrown = 0;
   static std::vector<std::string> errors;
-  static void reset(long fa){ live.clear(); alloc_count = 0; fault_at = fa; nullfree = 0; faults_thrown = 0; errors.clear(); }
+  static void reset(long fa){
+    for(auto& kv : live) ::operator delete(kv.first);   // blocks the previous case leaked were reported there; keep LeakSanitizer for the rest
+    live.clear(); alloc_count = 0; fault_at = fa; nullfree = 0; faults_thrown = 0; errors.clear(); }
   static long live_size(const void* p){ auto it = live.find(const_cast<void*>(p)); return it == live.end() ? -1 : (long)it->second; }
 }
 
@@ -187,7 +189,11 @@ static int run_cases(const char* path, long skip){
     }
     if(!active) continue;
     if(w[0] == "end"){
-      printf("end\n"); fflush(stdout);
+      // objects still alive here were left behind on purpose by the case (probe cases); leaks of memory that did
+      // not come from the allocator (new[]/malloc inside the library) show up only in LeakSanitizer
+      int ls = 0;
+      if(w.size() > 1 && w[1] == "lsan") ls = __lsan_do_recoverable_leak_check();
+      printf("end lsan=%d\n", ls); fflush(stdout);
       continue;
     }
     if(w[0] != "op") continue;
@@ -196,7 +202,13 @@ static int run_cases(const char* path, long skip){
     fprintf(stderr, "#%d %s\n", opidx, line.c_str()); fflush(stderr);
     try{
       int s = atoi(w[2].c_str());
-      if(kind == "new"){ objs[s] = new CT(); }
+      // histories are generated assuming no fault; under an injected fault an object may not exist (failed reading
+      // constructor). Operations on a missing object / creations over a live one are skipped, as in the model.
+      bool creates = kind == "new" || kind == "newread" || kind == "movector";
+      bool two = kind == "movector" || kind == "moveasg" || kind == "eq";
+      int s2 = two ? atoi(w[3].c_str()) : s;
+      if((creates && objs[s]) || (!creates && !objs[s]) || (two && !objs[s2]) || (kind == "movector" && s2 == s)){ outcome = "skipped"; }
+      else if(kind == "new"){ objs[s] = new CT(); }
       else if(kind == "read"){ objs[s]->read_fits(w[3]); }
       else if(kind == "readmem"){ std::vector<char> b = slurp(w[3]); objs[s]->read_fits_mem(b.data(), b.size()); }
       else if(kind == "newread"){               // the reading constructor: a throw leaves no object behind
@@ -218,6 +230,7 @@ static int run_cases(const char* path, long skip){
       else if(kind == "eq"){ int b = atoi(w[3].c_str()); bool r = (*objs[s] == *objs[b]); bool r2 = (*objs[s] != *objs[b]); msg = r ? "true" : "false"; if(r == r2) msg += "!ne-inconsistent"; }
       else if(kind == "write"){ objs[s]->write_fits(w[3]); }
       else if(kind == "writemem"){ std::pair<void*, size_t> r = objs[s]->write_fits_mem(); msg = std::to_string(r.second); free(r.first); }
+      else if(kind == "eval" && objs[s]->get_ndim() == 0){ outcome = "skipped"; }   // documented precondition: not evaluable
       else if(kind == "eval"){
         const CT* t = objs[s]; uint32_t nd = t->get_ndim();
         std::vector<double> x(nd ? nd : 1); std::vector<int> c(nd ? nd : 1);
